@@ -135,6 +135,44 @@ def compare(tag, nm, ref, data, meta, fails, case):
     return n
 
 
+def stale_bytecode_failure(tmp):
+    """render x - 2.0, import it in an interpreter that writes byte code (Python's default), render x - 3.0 under the same name
+    (same length of code) and give the sources the modification time of the first rendering (as within one second): a fresh
+    interpreter must see the second model"""
+    from Solverz import Model, Var, Eqn, module_printer
+    name = "c03_rerender_pyc"
+    child = ("import sys, numpy as np; sys.path.insert(0, sys.argv[1]); import importlib; m = importlib.import_module(sys.argv[2]); "
+             "print(float(np.asarray(m.mdl.F(np.array([0.0]), m.mdl.p))[0]))")
+    env = {k: v for k, v in os.environ.items() if k != "PYTHONDONTWRITEBYTECODE"}
+    env.update(PYTHONPATH=str(REPO), SOLVERZ_VERIF="1")
+    def build(c):
+        m = Model(); m.x = Var("x", 1.0); m.e = Eqn("e", m.x - c)
+        eqs, y0 = models.quiet(m.create_instance)
+        models.quiet(module_printer(eqs, y0, name, directory=tmp, jit=False).render)
+    def stamps():
+        d = os.path.join(tmp, name)
+        return {f: os.stat(os.path.join(d, f)) for f in os.listdir(d) if f.endswith(".py")}
+    try:
+        build(2.0)
+        st1 = stamps()
+        r1 = subprocess.run([sys.executable, "-c", child, tmp, name], env=env, capture_output=True, text=True, timeout=600)
+        build(3.0)
+        for f, st in st1.items():
+            pth = os.path.join(tmp, name, f)
+            if os.path.exists(pth):
+                os.utime(pth, ns=(st.st_atime_ns, st.st_mtime_ns))
+        r2 = subprocess.run([sys.executable, "-c", child, tmp, name], env=env, capture_output=True, text=True, timeout=600)
+        v1, v2 = r1.stdout.strip().splitlines()[-1:], r2.stdout.strip().splitlines()[-1:]
+        if v1 != ["-2.0"]:
+            return f"first rendering x - 2.0: a fresh interpreter reports F(0) = {v1} ({(r1.stderr or '')[-150:]})"
+        if v2 != ["-3.0"]:
+            return (f"re-rendered under the same name as x - 3.0 (code of equal length, same modification time): a fresh interpreter "
+                    f"reports F(0) = {v2}, the earlier model is still in place")
+    except Exception as ex:  # noqa
+        return f"re-render history raised {type(ex).__name__}: {str(ex)[:120]}"
+    return None
+
+
 def run(rep, tier, seed):
     rep.cov["trusted_base"] = BASE_TRUST + [
         "translator harness/translate/modulefs.py (reads the generated dependency.py and the AST of create_python_module)",
@@ -208,6 +246,10 @@ def run(rep, tier, seed):
             if data is not None:
                 for modname, ref in refsj.items():
                     ncmp += compare("render(numba)->import", modname, ref, data, meta, fails, dict(model=modname, phase="jit"))
+        ncmp += 1
+        msg_pyc = stale_bytecode_failure(tmp)
+        if msg_pyc:
+            fails.append((dict(model="x - 2.0, then x - 3.0 under the same name", phase="re-render, byte code cache"), msg_pyc))
         # the numba backend on an integer-typed state vector of equal values: the same numbers as for the float array, or an error
         # (x**-2 is 0 in integer arithmetic)
         try:
@@ -221,6 +263,25 @@ def run(rep, tier, seed):
             if tmp not in sys.path:
                 sys.path.insert(0, tmp)
             mod_i = models.quiet(importlib.import_module, "c03_intpow")
+            # parameters declared with narrow dtypes: the numba module and the in-process model are the same model
+            from Solverz import Param, heaviside, made_numerical
+            def narrow():
+                mn = Model()
+                mn.x = Var("x", [2.0, 1.0])
+                mn.n = Param("n", [50000, 3], dtype=np.int32); mn.a = Param("a", [0.1, 0.7], dtype=np.float32)
+                mn.e = Eqn("e", mn.x * mn.n ** 2 - 60000 * mn.n + mn.x ** 2 * heaviside(0.1 - mn.a))
+                return models.quiet(mn.create_instance)
+            eqs_n, y0_n = narrow()
+            nd_n = models.quiet(made_numerical, eqs_n, y0_n, sparse=True)
+            eqs_n2, y0_n2 = narrow()
+            models.quiet(module_printer(eqs_n2, y0_n2, "c03_narrow", directory=tmp, jit=True).render)
+            mod_n = models.quiet(importlib.import_module, "c03_narrow")
+            ncmp += 1
+            Fa, Fb = np.asarray(nd_n.F(y0_n.array, nd_n.p), dtype=float), np.asarray(mod_n.mdl.F(y0_n2.array, mod_n.mdl.p), dtype=float)
+            Ja, Jb = nd_n.J(y0_n.array, nd_n.p).toarray(), mod_n.mdl.J(y0_n2.array, mod_n.mdl.p).toarray()
+            if not (close(Fa, Fb) and close(Ja, Jb)):
+                fails.append((dict(model="x*n**2 - 60000*n + x**2*heaviside(0.1 - a), n int32, a float32", phase="jit vs in-process"),
+                              f"parameters of narrow dtype: in-process F = {Fa}, J = {Ja.tolist()}; numba module F = {Fb}, J = {Jb.tolist()}"))
             ncmp += 1
             Ff = np.asarray(mod_i.mdl.F(np.array([2.0, 1.0]), mod_i.mdl.p), dtype=float)
             try:
@@ -235,7 +296,7 @@ def run(rep, tier, seed):
         except Exception as ex:  # noqa
             rep.notes.append(f"integer-state numba probe: {type(ex).__name__}: {str(ex)[:100]}")
         finally:
-            sys.modules.pop("c03_intpow", None)
+            sys.modules.pop("c03_intpow", None); sys.modules.pop("c03_narrow", None)
         # in-process models built earlier must not have been changed by the models built after them (shared name spaces)
         for label, nd, args, F1 in RETAINED:
             ncmp += 1
